@@ -259,6 +259,7 @@ protected:
         while( new_size<minimum_size )
             new_size*=2;
 
+        __TBB_VERIF_POINT(vp_fg_buffer_grow, this, new_size);
         buffer_item_type* new_array = allocator_type().allocate(new_size);
 
         // initialize validity to "no"
